@@ -361,6 +361,8 @@ def binop(I, fr, op, l, r, node):
                 expo = l.expo * r.expo.inverse()
             if l.sym is not None and r.sym is not None:
                 sym = (l.sym.exact_div(r.sym.c) if r.sym.is_const() else None) or opaque_sym("div", l.sym, r.sym)
+                if repr(l.sym) in _LOG_ARG and repr(r.sym) == "log[2]":
+                    _LOG2_ARG[repr(sym)] = _LOG_ARG[repr(l.sym)]
         else:
             alg = {at: alg_nonlinear(c) if c[0] not in ("const", "zero") and not (hom_form(c) and hom_form(c)[0] == Exp(0)) else c
                    for at, c in alg.items()}
@@ -414,6 +416,8 @@ def binop(I, fr, op, l, r, node):
             dtype = "real"          # int ** int stays an int for a non-negative exponent (sizes: 2 ** k); a negative one gives a float
         if l.sym is not None and r.sym is not None:
             sym = opaque_sym("pow", l.sym, r.sym)
+            if l.sym.is_const() and l.sym.c == 2 and repr(r.sym) in _LOG2_ARG:
+                _POW2LOG[repr(sym)] = _LOG2_ARG[repr(r.sym)]
     elif isinstance(op, (ast.BitAnd, ast.BitOr, ast.BitXor)):
         from .interp import alg_lub_pc
         alg = alg2(l, r, alg_lub_pc)
@@ -1830,8 +1834,18 @@ def _nonlin(sign_f=None, mono_inc=False, dtype=None, tag=None):
                        mono=v.mono if mono_inc else frozenset(), tag=tag)
         if v.shape == () and v.sym is not None:
             out = out.replace(sym=opaque_sym(C.name.split(".")[-1], v.sym))
+            short_ = C.name.split(".")[-1]
+            if short_ == "log":
+                _LOG_ARG[repr(out.sym)] = v.sym
+            elif short_ == "log2":
+                _LOG2_ARG[repr(out.sym)] = v.sym
         return out
     return h
+
+
+# value numbering for the round trip 2 ** (log(x) / log(2)) -- x in exact arithmetic, x up to rounding in floating point: np.ceil of it is
+# at least x (int(np.ceil(.)) used as a slice bound keeps every one of x samples), a bare int(.) may be x - 1
+_LOG_ARG, _LOG2_ARG, _POW2LOG = {}, {}, {}
 
 
 for _n in ("sin", "cos", "tan", "arcsin", "arccos", "arctan", "sinh", "cosh", "tanh"):
@@ -1863,6 +1877,8 @@ def _rounder(direction):
         if c is not None:
             f = {"ceil": math.ceil, "floor": math.floor, "nearest": round, "toward-zero": math.trunc}[direction]
             out = out.replace(const=float(f(c)), sym=LinExpr(int(f(c))), expo=Exp(int(f(c))), sign=sign_of_number(f(c)))
+        elif v.shape == () and direction == "ceil" and v.sym is not None and repr(v.sym) in _POW2LOG:
+            out = out.replace(sym=_POW2LOG[repr(v.sym)])         # ceil(2 ** log2(x)) keeps all x (x or x + 1): as a slice bound it is x
         elif v.shape == ():
             out = out.replace(sym=opaque_sym(direction, v.sym) if v.sym is not None else LinExpr(fresh_atom("$c")))
         if v.shape == ():
